@@ -114,6 +114,9 @@ def mc_configs(pid, tier):
                                                        "drop_stream", "drop_half"},
                                          DestKinds={"srv"}, BindKinds={"any"}, MaxAct=11 if q else 12)),
         ]
+        cfgs.append(("mc_conn_burst", conn_consts(MaxConn=3 if q else 4, NH=2, Cap=3 if q else 4,
+                                                  Alpha={"bind", "connect", "deliver", "accept", "cancel"},
+                                                  DestKinds={"srv"}, BindKinds={"any"}, MaxAct=10 if q else 12)))
         if not q:
             cfgs.append(("mc_conn3", conn_consts(MaxConn=3, Cap=3, Alpha=set(CONN_OPS) - {"partition"},
                                                  BindKinds={"any"}, MaxAct=10)))
@@ -122,6 +125,8 @@ def mc_configs(pid, tier):
         cfgs = [
             ("mc_ports", ports_consts(MaxOps=6 if q else 8)),
             ("mc_dns", dns_consts(MaxOps=5 if q else 6)),
+            ("mc_ports_shared", ports_consts(Hi=49153, Fixed=set(), Ops={"bind_tcp", "bind_udp", "accept", "drop", "drop_half"},
+                                             MaxOps=8 if q else 9, MaxIn=2)),
         ]
         if not q:
             cfgs.append(("mc_ports_r4", ports_consts(Hi=49155, MaxSock=5, MaxOps=6, Fixed={49154, 9})))
@@ -152,6 +157,9 @@ def gen_configs(pid, tier):
             ("gen_conn_data", conn_consts(NH=2, Alpha={"bind", "connect", "deliver", "accept", "poll", "write", "read",
                                                         "drop_stream"},
                                           DestKinds={"srv"}, BindKinds={"any"}, MaxAct=10 if q else 11), dict(v6=1), None),
+            # bursts: 3-4 requests pending at one listener at the same time before / between accepts
+            ("gen_conn_burst", conn_consts(MaxConn=3, NH=2 if q else 3, Cap=3, Alpha={"bind", "connect", "deliver", "accept", "cancel"},
+                                           DestKinds={"srv"}, BindKinds={"any"}, MaxAct=10), dict(v6=0), None),
             ("sim_conn", conn_consts(MaxConn=3, Cap=3, Alpha=set(CONN_OPS) | {"write", "read", "drop_stream"},
                                      MaxAct=20), dict(v6=0), f"num={150 if q else 3000}"),
         ]
@@ -160,6 +168,10 @@ def gen_configs(pid, tier):
         cfgs = [
             ("gen_ports", ports_consts(MaxOps=5 if q else 6), dict(v6=0), None),
             ("gen_dns", dns_consts(MaxOps=4 if q else 5), dict(v6=1), None),
+            # streams accepted on a listener that was bound to port 0 share its (ephemeral) port: the port
+            # stays in use until the last of them is gone, also after the listener itself was dropped
+            ("gen_ports_shared", ports_consts(Hi=49153, Fixed=set(), Ops={"bind_tcp", "bind_udp", "accept", "drop", "drop_half"},
+                                              MaxOps=7 if q else 8, MaxIn=2), dict(v6=0), None),
         ]
         if not q:
             cfgs.append(("gen_ports_v6", ports_consts(MaxOps=5, Fixed={49152, 7}), dict(v6=1), None))
@@ -172,14 +184,16 @@ def random_configs(pid, tier, seed):
     q = tier == "quick"
     if pid in ("C02", "C12"):
         mode = "data" if pid == "C02" else "conn"
-        base = [dict(mode=mode, nh=3, cap=2, tick=2, lmin=1, lmax=6, conns=3, runs=12 if q else 80),
+        base = [dict(mode=mode, nh=3, cap=2 if pid == "C02" else 4, tick=2, lmin=1, lmax=6, conns=3 if pid == "C02" else 4,
+                     runs=12 if q else 80),
                 dict(mode=mode, nh=2, cap=1, tick=1, lmin=1, lmax=4, conns=2, runs=12 if q else 80),
                 dict(mode=mode, nh=3, cap=3, tick=3, lmin=2, lmax=11, conns=4, runs=8 if q else 60)]
         return [dict(c, seed=seed * 101 + i, maxconn=c["conns"], ports=[1, 2]) for i, c in enumerate(base)]
     if pid == "C15":
         base = [dict(lo=49152, hi=49156, maxsock=8, ops=40, names=40, runs=6 if q else 30),
-                # more than 256 registered names in one session (the v4 host part spans two octets)
-                dict(lo=50000, hi=50002, maxsock=5, ops=30, names=400, dnsops=700, runs=4 if q else 30)]
+                # every session first registers 640 distinct names (IPv4 in even runs, IPv6 in odd runs), looks
+                # every one of them up again and reverse-resolves every address, then continues at random
+                dict(lo=50000, hi=50002, maxsock=5, ops=30, names=700, dnsfill=640, dnsops=200, runs=2 if q else 12)]
         if not q:
             base.append(dict(lo=60000, hi=60007, maxsock=12, ops=80, names=600, runs=20))
         return [dict(c, seed=seed * 101 + i) for i, c in enumerate(base)]
@@ -299,6 +313,8 @@ def outcomes_of(pid, hs):
                     seen["Exhausted"] = seen.get("Exhausted", 0) + 1
                 elif r == -3:
                     seen["ConnectFailed"] = seen.get("ConnectFailed", 0) + 1
+                if op["a"] == "accept" and r and r >= 49152:
+                    seen["AcceptEphemeral"] = seen.get("AcceptEphemeral", 0) + 1
                 if op["a"] == "regex" and r:
                     seen["RegexNonEmpty"] = seen.get("RegexNonEmpty", 0) + 1
                 if op["a"] == "reverse" and r:
@@ -314,8 +330,10 @@ NEED_OUTCOMES = {
     "gen_conn": ["connect:pending", "connect:refused", "poll:ok", "poll:refused", "poll:pending", "accept:ok",
                  "accept:pending", "bind:inuse", "deliver:syn"],
     "gen_conn_data": ["accept:ok", "poll:ok", "read:data"],
+    "gen_conn_burst": ["accept:ok", "accept:pending", "deliver:syn"],
     "gen_ports": ["AddrInUse", "Exhausted", "ConnectFailed"],
     "gen_dns": ["RegexNonEmpty", "ReverseFound"],
+    "gen_ports_shared": ["AcceptEphemeral", "Exhausted"],
 }
 
 NEED_ACTIONS = {
@@ -323,10 +341,12 @@ NEED_ACTIONS = {
                      "DeliverRst", "Quiet"],
     "mc_data_cap2": ["Write", "Shutdown", "Read", "DropStream", "DeliverSeg", "DeliverRst", "Quiet"],
     "mc_conn": ["Bind", "DropListener", "Connect", "DeliverSyn", "Accept", "Poll", "Cancel", "Partition", "Repair", "Tick"],
+    "mc_conn_burst": ["Bind", "Connect", "DeliverSyn", "Accept", "Cancel"],
     "mc_conn_data": ["Bind", "Connect", "DeliverSyn", "Accept", "Poll", "Write", "Read", "DropStream", "DeliverSeg"],
     "mc_ports": ["BindUdp", "BindTcp", "Connect", "AcceptIn", "Drop", "DropHalf", "Crash"],
     "mc_ports_r4": ["BindUdp", "BindTcp", "Connect", "AcceptIn", "Drop", "DropHalf", "Crash"],
     "mc_dns": ["Lookup", "Reverse", "Literal", "Regex"],
+    "mc_ports_shared": ["BindUdp", "BindTcp", "AcceptIn", "Drop", "DropHalf"],
 }
 
 
